@@ -42,7 +42,7 @@ impl Drop for W16 {
 
 async fn new_world(history: usize, tag: &str) -> W16 {
     let all = vec![Feature::TcpForward, Feature::TcpBind, Feature::UdpForward, Feature::UdpBind];
-    let conns = vec![("up".to_string(), all.clone()), ("bad".to_string(), all.clone()), ("gone".to_string(), all)];
+    let conns = vec![("up".to_string(), all.clone()), ("bad".to_string(), all.clone()), ("gone".to_string(), all), ("tcponly".to_string(), vec![Feature::TcpForward])];
     let mut w = world(&conns, history);
     let log_path = format!("/verif/out/C16/access-{}-{}.log", std::process::id(), tag);
     let _ = std::fs::remove_file(&log_path);
@@ -55,7 +55,7 @@ async fn new_world(history: usize, tag: &str) -> W16 {
     w.conns[1].fail.store(true, std::sync::atomic::Ordering::SeqCst);
     w.conns[2].vanish.store(true, std::sync::atomic::Ordering::SeqCst);
     w.state.contexts.clone().gc_thread();
-    set_rules(&w, &[("deny".into(), Some("request.target.port == 1".into())), ("bad".into(), Some("request.target.port == 2".into())), ("gone".into(), Some("request.target.port == 3".into())), ("up".into(), None)]).await.unwrap();
+    set_rules(&w, &[("tcponly".into(), Some("request.feature == \"UdpForward\"".into())), ("deny".into(), Some("request.target.port == 1".into())), ("bad".into(), Some("request.target.port == 2".into())), ("gone".into(), Some("request.target.port == 3".into())), ("up".into(), None)]).await.unwrap();
     let http = start_listener(&w, "name: http\ntype: http").await;
     let socks = start_listener(&w, "name: socks\ntype: socks").await;
     let api = free_port();
@@ -102,9 +102,9 @@ async fn next_id(w: &World) -> u64 {
 
 /// one complete connection of the given kind; returns what the record must say
 async fn one_connection(x: &mut W16, rng: &mut Rng, kind: usize, hold: bool) -> Option<TcpStream> {
-    let kinds = ["ok", "deny", "connfail", "garbage", "hangup", "ok-early", "upvanish"];
+    let kinds = ["ok", "deny", "connfail", "garbage", "hangup", "ok-early", "upvanish", "udp-unsupported"];
     let kind = kinds[kind % kinds.len()];
-    let via_socks = rng.chance(1, 2);
+    let via_socks = rng.chance(1, 2) || kind == "udp-unsupported";
     let port = if via_socks { x.socks } else { x.http };
     let tport: u16 = match kind {
         "deny" => 1,
@@ -124,6 +124,18 @@ async fn one_connection(x: &mut W16, rng: &mut Rng, kind: usize, hold: bool) -> 
     let terminal;
     let connector;
     match kind {
+        "udp-unsupported" => {
+            // a UDP request whose rule names a connector without UDP support: refused, no upstream is used or named
+            let _ = s.write_all(&[5, 1, 0, 5, 3, 0, 1, 0, 0, 0, 0, 0, 0]).await;
+            let mut v = vec![];
+            let _ = tokio::time::timeout(std::time::Duration::from_secs(3), s.read_to_end(&mut v)).await;
+            drop(s);
+            if let Some(id) = wait_new_id(&x.w, &before).await {
+                wait_dropped(&x.w, id).await;
+            }
+            x.expects.push(Expect { listener: "socks", src_port, target: None, connector: None, terminal: "ErrorOccured", up: 0, down: 0, kind });
+            return None;
+        }
         "garbage" => {
             let _ = s.write_all(b"\x16\x03\x01 this is not a proxy request\r\n\r\n").await;
             let _ = s.shutdown().await;
@@ -275,6 +287,16 @@ async fn observe(out: &mut Out, x: &mut W16, history: usize) -> String {
         if !v["source"].as_str().map(|s| s.ends_with(&format!(":{}", e.src_port))).unwrap_or(false) {
             out.oracle_fail("record-source", &format!("{}: source {:?}, client port {}", ctx, v["source"], e.src_port));
         }
+        // the lifecycle: no upstream phase is recorded for a connection that never got an upstream, and every state at most once
+        if e.connector.is_none() && states.iter().any(|s| s == "ServerConnecting" || s == "Connected") {
+            out.oracle_fail("lifecycle", &format!("{}: no upstream was chosen, yet an upstream phase is recorded", ctx));
+        }
+        {
+            let mut once = std::collections::HashSet::new();
+            if states.iter().any(|s| !once.insert(s.clone())) {
+                out.oracle_fail("lifecycle", &format!("{}: a state is recorded twice", ctx));
+            }
+        }
         if let Some(t) = &e.target {
             if v["target"].as_str() != Some(t.as_str()) {
                 out.oracle_fail("record-target", &format!("{}: target {:?}, requested {}", ctx, v["target"], t));
@@ -333,7 +355,7 @@ pub async fn run(out: &mut Out) {
         for round in 0..rounds {
             // a burst that is larger than small history sizes, inside one GC interval when possible
             // the first burst goes through every kind of connection once
-            let n = if round == 0 { 7 } else { rng.range(2, if thorough { 12 } else { 7 }) };
+            let n = if round == 0 { 8 } else { rng.range(2, if thorough { 12 } else { 7 }) };
             for k in 0..n {
                 one_connection(&mut x, &mut rng, k + round, false).await;
             }
